@@ -86,6 +86,8 @@ def cases(seed, quick):
                 out.append({"kind": name, "bits": bits, "signed": signed, "text": list(t), "s": t, "variant": rng.choice(["plain", "ptr", "named"]), "shape": rng.choice(["multifirst", "multilast"])})
             if rng.random() < 0.3:       # a typed wildcard literal ("":Num) instead of the token reference
                 out.append({"kind": name, "bits": bits, "signed": signed, "text": list(t), "s": t, "variant": rng.choice(["plain", "ptr", "named", "slice"]), "shape": "typedwild"})
+            if rng.random() < 0.15:      # the token is captured through a negation ( @!"never" ), elided text before it
+                out.append({"kind": name, "bits": bits, "signed": signed, "text": list(t), "s": t, "variant": rng.choice(["plain", "ptr", "named"]), "shape": "negcap"})
             if rng.random() < 0.15:      # a repetition after the capture takes a token and fails: the conversion error stays the parse's error
                 out.append({"kind": name, "bits": bits, "signed": signed, "text": list(t), "s": t, "variant": "plain", "shape": "tail"})
             if rng.random() < 0.15:      # the field lives in a struct embedded three levels deep next to a field of another width
